@@ -18,6 +18,27 @@ THEOREMS = [
     "Typedpy.C16.stub_sigkw_iff", "Typedpy.C16.sig_kwargs_not_admitted_iff", "Typedpy.C16.stub_sigkw_agree_partial",
     "Typedpy.C16.stub_sigkw_disagree", "Typedpy.C16.stub_kw_matches_constructor_in_off_region",
     "Typedpy.C16.inherited_addl_off_counterexample", "Typedpy.C16.C16_signature_statement_false",
+    "Typedpy.C16.stub_init_text_parses",
+    "Typedpy.C16.stub_helper_text_parses",
+    "Typedpy.C16.init_text_parses_of_mandatory_first",
+    "Typedpy.C16.stub_class_header_parses",
+    "Typedpy.C16.stub_attr_text_parses",
+    "Typedpy.C16.stub_method_text_roundtrip",
+    "Typedpy.C16.stub_init_dupfree_iff",
+    "Typedpy.C16.stub_helper_dupfree_iff",
+    "Typedpy.C16.name_clash_counterexample",
+    "Typedpy.C16.stub_text_example",
+    "Typedpy.C16.parse_rejects_examples",
+    "Typedpy.C16.stub_kw_apd_declared", "Typedpy.C16.stub_kw_apd_undeclared",
+    "Typedpy.C16.stubD_names_agree_iff",
+    "Typedpy.C16.stubD_required_agree",
+    "Typedpy.C16.stubD_kw_iff",
+    "Typedpy.C16.stubD_sigkw_iff",
+    "Typedpy.C16.stubD_sigkw_is_define",
+    "Typedpy.C16.stubD_mandatory_first",
+    "Typedpy.C16.stubD_init_text_parses",
+    "Typedpy.C16.stubD_diamond_example",
+    "Typedpy.C16.diamond_names_counterexample",
 ]
 RULE = ("generated modules: 2-7 Structure classes (annotation and assignment style; inheritance from 1-2 earlier "
         "classes, Partial/Omit/Pick/Extend/AllFieldsRequired bases, ImmutableStructure; _required/_optional/"
@@ -31,13 +52,18 @@ RULE = ("generated modules: 2-7 Structure classes (annotation and assignment sty
         "default kind (none, literal, None, class, lambda, named function, functools.partial, callable instance, mutable "
         "literal), each compared by name and kind with inspect.signature; additional_properties_default in "
         "{True, False}; every module through the real create_stub_for_file, ast.parse, parameter extraction; "
-        "byte-identity under 1-2 other PYTHONHASHSEEDs in fresh interpreters; a case is non-trivial if a class has "
+        "byte-identity under 1-2 other PYTHONHASHSEEDs in fresh interpreters; Enum fields over plain values (hostile strings: quotes, backslashes, "
+        "line breaks, non-ASCII, brackets; list / tuple / Enum[...] / SET-valued under other hash seeds); shared-ancestor hierarchies (6 diamond shapes, "
+        "overriding along one branch, flags anywhere, the constant-shadowing family); stub default != runtime default; subclasses of classes with a "
+        "user-written __init__; per module every def/class header of the real stub and ~8 token-level mutations of them through the Lean lexer + "
+        "recogniser and CPython's ast.parse; a case is non-trivial if a class has "
         ">= 2 own fields or a non-trivial base; distinct by sha256 of the canonical case")
 ASSUMPTIONS = [
-    "partial property: file I/O, import resolution and 'parses as Python' are decided by running CPython (ast.parse), not by the model",
-    "class hierarchies are tree-shaped (no shared Structure ancestor): the model's MRO is the depth-first pre-order",
-    "the stub is generated with additional_properties_default equal to TypedPyDefaults.additional_properties_default",
-    "classes that inherit a user-written __init__ are outside the generated domain",
+    "partial property: file I/O, import resolution, module constants / enum bodies / import lines and the character-level lexer are decided or corresponded by running CPython (ast.parse, compile, tokenize), not proved",
+    "the recogniser models the token / expression subset the generator writes (names, subscriptions, list displays, literals, `...`; no operators, calls, slices, starred items, parentheses inside parameter lists)",
+    "how a Field becomes an annotation (get_type_info) is not modelled: annotation ASTs are read off the real get_type_info per case and universally quantified in the theorems",
+    "tree-shaped hierarchies: theorems by induction over the whole hierarchy (Sem/Stub.lean); shared ancestors / diamonds: one-step theorems over Sem/Define.lean worlds (Sem/StubDefine.lean)",
+    "classes that inherit a user-written __init__: the stub is compared with inspect.signature(cls) only",
     "TypedPyDefaults.additional_properties_default does not change between the definition of a base and of its subclasses",
 ]
 TRUSTED_EXTRA = [
@@ -48,14 +74,14 @@ TRUSTED_EXTRA = [
 
 def cases(rng, tier):
     S.reset_work()
-    cs = ([json.loads(json.dumps(c)) for c in S.CORPUS] + S.zoo_cases(rng, tier) + S.sig_cases(rng, tier) + S.const_cases(rng, tier) + S.mi_cases(rng, tier)
+    cs = ([json.loads(json.dumps(c)) for c in S.CORPUS] + S.zoo_cases(rng, tier) + S.sig_cases(rng, tier) + S.const_cases(rng, tier) + S.mi_cases(rng, tier) + S.enumvals_cases(rng, tier) + S.diamond_cases(rng, tier) + S.apd_cases(rng, tier) + S.inh_init_cases(rng, tier)
           + S.gen_cases(rng, tier, 450 if tier == "quick" else 6000))
     S.prepare(cs)
     return cs
 
 
 def search_cases(rng, tier):
-    cs = S.zoo_cases(rng, tier) + S.sig_cases(rng, tier) + S.const_cases(rng, tier) + S.mi_cases(rng, tier) + S.gen_cases(rng, "thorough", 150)
+    cs = S.zoo_cases(rng, tier) + S.sig_cases(rng, tier) + S.const_cases(rng, tier) + S.mi_cases(rng, tier) + S.enumvals_cases(rng, tier) + S.diamond_cases(rng, tier) + S.apd_cases(rng, tier) + S.inh_init_cases(rng, tier) + S.gen_cases(rng, "thorough", 150)
     S.prepare(cs)
     return cs
 
@@ -132,10 +158,24 @@ def judge(case, impl, model):
             fails.append(("uncompilable-stub:other", f"generated .pyi parses but does not compile: {ce['msg']} at `{ce['line']}`"))
     stub = impl["stub"]["classes"]
     mclasses = {c["name"]: c for c in model["classes"]}
+    dclasses = {c["name"]: c for c in model.get("classesD", [])}
     table = impl["table"]
+    nontree = set(impl.get("nontree", []))
     for ti, name in zip(impl["targets"], specs):
         rv = impl["runtime"][name]
         mc = mclasses.get(name)
+        dc = dclasses.get(name)
+        if ti in nontree:
+            mc = dc         # shared ancestor: the Define-based model (C3) is the model of this class
+        elif dc is not None:
+            # tree-shaped: the two models of the same code must agree with each other
+            for k in ("init", "shallowClone", "fromOtherClass", "fromTrustedData", "consts", "fieldOrder",
+                      "admitsExtra", "inheritedAddlOn", "inheritedAddlOff"):
+                if mc[k] != dc[k]:
+                    msgs.append(f"{name}: tree model and Define-based model differ in {k}: {mc[k]} / {dc[k]}")
+            if sorted(mc["runtime"]["params"]) != sorted(dc["runtime"]["params"]) or mc["runtime"]["kw"] != dc["runtime"]["kw"] \
+                    or sorted(set(mc["required"])) != sorted(set(dc["required"])):
+                msgs.append(f"{name}: tree model and Define-based model differ in the runtime signature / _required")
         sc = stub.get(name)
         ff = final_fields(table, ti)
         # ---- correspondence: model of the runtime side vs the real class
@@ -197,7 +237,13 @@ def judge(case, impl, model):
             if in_consts:
                 fails.append(("constant-in-stub:init", f"{name}: Constant field(s) {in_consts} are keyword parameters of the stub __init__"))
             elif set(sn) != rt_names:
-                fails.append(("names-mismatch:init", f"{name}: stub __init__ keywords {sorted(sn)} != runtime-accepted {sorted(rt_names)}"))
+                if dc is not None and not dc["namesCovered"] and ti in nontree:
+                    fails.append(("names-mismatch:constant-shadowed-in-diamond",
+                                  f"{name}: stub __init__ keywords {sorted(sn)} != inspect.signature names {sorted(rt_names)}: a base "
+                                  "took the name for a Constant (its signature drops it) while this class resolves it to "
+                                  "another branch's Field"))
+                else:
+                    fails.append(("names-mismatch:init", f"{name}: stub __init__ keywords {sorted(sn)} != runtime-accepted {sorted(rt_names)}"))
             for n, d in init["pos"]:
                 if n not in rt_names:
                     continue
@@ -218,7 +264,8 @@ def judge(case, impl, model):
                     fails.append(("param-order:init", f"{name}: mandatory parameter {n} after an optional one"))
                     break
             # the `**` clause against inspect.signature(cls) (the observation point named by the property)
-            if init["kw"] != rv["sigkw"] and not (known_kw and init["kw"]):
+            if init["kw"] != rv["sigkw"] and not (known_kw and init["kw"]) and not (
+                    case["apd"] != case["dflt"] and not mc.get("addlDeclared", True)):
                 if mc["inheritedAddlOff"] and rv["sigkw"] and not init["kw"] and admits is False:
                     fails.append(("inherited-additional-properties-off:signature-kwargs",
                                   f"{name}: inspect.signature(cls) has **kwargs, the stub __init__ has no **kw; the "
@@ -227,7 +274,10 @@ def judge(case, impl, model):
                 else:
                     fails.append(("kw-mismatch:signature",
                                   f"{name}: stub **kw={init['kw']}, inspect.signature **kwargs={rv['sigkw']}, admits={admits}"))
-            if admits is not None and init["kw"] != admits:
+            by_config = case["apd"] != case["dflt"] and not mc.get("addlDeclared", True)
+            if admits is not None and init["kw"] != admits and by_config:
+                pass        # the flag is declared nowhere: the stub's `**` clause is the configured apd
+            elif admits is not None and init["kw"] != admits:
                 if known_kw and init["kw"] and not admits:
                     fails.append(("inherited-additional-properties",
                                   f"{name}: stub __init__ has **kw, the constructor rejects unknown keywords "
@@ -254,17 +304,66 @@ def judge(case, impl, model):
             if not ok_shape:
                 fails.append((f"helper-shape:{mname}", f"{name}: {h}"))
             hn = [n for n, _ in fields]
-            if set(hn) != rt_names or len(hn) != len(set(hn)):
+            if set(hn) != rt_names and dc is not None and not dc["namesCovered"] and ti in nontree:
+                fails.append(("names-mismatch:constant-shadowed-in-diamond",
+                              f"{name}.{mname}: field keywords {sorted(hn)} != inspect.signature names {sorted(rt_names)}"))
+            elif set(hn) != rt_names or len(hn) != len(set(hn)):
                 fails.append((f"helper-names-mismatch:{mname}",
                               f"{name}: field keywords {sorted(hn)} != runtime-accepted {sorted(rt_names)}"))
             if not all(d for _, d in fields):
                 fails.append((f"helper-default-missing:{mname}",
                               f"{name}: {[n for n, d in fields if not d]} have no default"))
-            if admits is not None and h["kw"] != admits:
+            if admits is not None and h["kw"] != admits and case["apd"] != case["dflt"] and not mc.get("addlDeclared", True):
+                pass
+            elif admits is not None and h["kw"] != admits:
                 if known_kw and h["kw"] and not admits:
                     fails.append(("inherited-additional-properties", f"{name}.{mname}: **kw although unknown keywords are rejected"))
                 else:
                     fails.append((f"kw-mismatch:{mname}", f"{name}: stub **kw={h['kw']}, class admits additional properties={admits}"))
+    # ---- the text tie: Lean lexer + recogniser against CPython on the real and the mutated headers; the model's
+    #      token sequences against the lexed real text
+    if "text_err" in impl:
+        msgs.append("text tie failed: " + impl["text_err"])
+    mt, tp = (model or {}).get("text"), (impl.get("text") or {}).get("py")
+    if mt and tp:
+        for arr in ("defs", "muts"):
+            texts = impl["text"]["wire"][arr]
+            for i, (m, p) in enumerate(zip(mt[arr], tp[arr])):
+                lean_ok = bool(m.get("lex")) and m.get("parse") is not None
+                what = "real header" if arr == "defs" else f"mutated header ({tp['mut_ops'][i]})"
+                if lean_ok and p is None:
+                    msgs.append(f"recogniser accepts a {what} that CPython rejects: `{texts[i][:160]}`")
+                elif p is not None and not lean_ok:
+                    if tp[arr + "_subset"][i]:
+                        msgs.append(f"recogniser rejects a {what} that CPython accepts: `{texts[i][:160]}`")
+                elif lean_ok and (m["parse"]["name"] != p["name"] or m["parse"]["params"] != p["params"]):
+                    msgs.append(f"recogniser reads {m['parse']['params']} where CPython reads {p['params']}: `{texts[i][:160]}`")
+        for i, (m, p) in enumerate(zip(mt["cls"], tp["cls"])):
+            lean = m.get("parse") if m.get("lex") else None
+            if (lean is None) != (p is None) or (lean is not None and lean != p):
+                if p is None or lean is not None or in_names_only(impl["text"]["wire"]["cls"][i]):
+                    msgs.append(f"class header `{impl['text']['wire']['cls'][i][:120]}`: recogniser {lean} CPython {p}")
+        if "syntax_err" not in impl:
+            lean_dup = any(m.get("parse") and not m["parse"]["dupFree"] for m in mt["defs"])
+            py_dup = "compile_err" in impl and "duplicate argument" in impl["compile_err"]["msg"]
+            if lean_dup != py_dup:
+                msgs.append(f"duplicate parameter names: model {lean_dup}, compile() {py_dup}")
+        for c in mt["classes"]:
+            if not c["domain"]:
+                continue
+            for k in ("init", "shallowClone", "fromOtherClass", "fromTrustedData", "header"):
+                e = c.get(k)
+                if e is not None and not e["eq"]:
+                    msgs.append(f"{c['name']}.{k} text: model writes `{e['model'][:200]}`, the stub has something else")
+            if c["attrBad"]:
+                msgs.append(f"{c['name']}: attribute lines {c['attrBad']} differ from the model's text")
+        for qn, m in zip(tp.get("meths", []), mt.get("meths", [])):
+            if not m["valid"]:
+                msgs.append(f"{qn}: inspect.signature reports a parameter list the model calls illegal")
+            elif not m["eq"]:
+                msgs.append(f"{qn} text: model writes `{m['model'][:200]}`, the stub has something else")
+            elif not m["roundtrip"]:
+                msgs.append(f"{qn}: printed signature `{m['model'][:200]}` does not parse back to itself")
     # ---- every function / method signature: same parameter names and kinds as inspect.signature
     site_of = {}
     for it in case["mod"]["items"]:
@@ -321,6 +420,12 @@ def judge(case, impl, model):
         if fn not in impl["stub"]["funcs"]:
             fails.append(("function-missing", f"function {fn} is not declared in the stub"))
     return _m(msgs), fails
+
+
+def in_names_only(header):
+    """a class header whose bases are plain dotted names (the subset `parseClass` models)"""
+    import re
+    return re.fullmatch(r"class [A-Za-z_][A-Za-z0-9_]*(\(([A-Za-z_][A-Za-z0-9_.]*(, )?)*\))?:", header) is not None
 
 
 def _m(msgs):
